@@ -17,7 +17,7 @@
    of every rune a Go string yields). *)
 From Coq Require Import List NArith ZArith Permutation.
 From Dials Require Import Base.Outcome Base.Runes Text.ParseInt Text.Quote Text.Split
-  Text.FlagHelpers Text.ParseString Text.ParseFloat Text.ParseIntProofs Text.QuoteProofs Text.SplitProofs.
+  Text.FlagHelpers Text.ParseString Text.ParseFloat Text.IntGrammar Text.ParseIntProofs Text.IntGrammarProofs Text.QuoteProofs Text.SplitProofs.
 Import ListNotations.
 Open Scope N_scope.
 
@@ -77,23 +77,51 @@ Theorem uint_slice_out_of_range_is_error : forall w s, s <> [] ->
   exists c, unsigned_slice w s = Err c.
 Proof. exact (unsigned_slice_rejects true). Qed.
 
-(* ---- Go literal forms: base prefixes read the digits in that base, digit
-   separators do not contribute, blanks around slice elements are ignored ---- *)
-Theorem int_accepts_go_forms :
-  (forall d ds, plain_digits (d :: ds) ->
-     lit_uvalue (48 :: 120 :: d :: ds) = digits_val 16 (d :: ds) 0 /\
-     lit_uvalue (48 :: 88 :: d :: ds) = digits_val 16 (d :: ds) 0 /\
-     lit_uvalue (48 :: 111 :: d :: ds) = digits_val 8 (d :: ds) 0 /\
-     lit_uvalue (48 :: 79 :: d :: ds) = digits_val 8 (d :: ds) 0 /\
-     lit_uvalue (48 :: 98 :: d :: ds) = digits_val 2 (d :: ds) 0 /\
-     lit_uvalue (48 :: 66 :: d :: ds) = digits_val 2 (d :: ds) 0) /\
-  (forall ds, plain_digits ds -> (forall c r, ds = c :: r -> is_base_letter c = false) ->
-     lit_uvalue (48 :: ds) = digits_val 8 ds 0) /\
-  (forall base s acc,
-     digits_val base s acc = digits_val base (filter (fun c => negb (c =? 95)) s) acc) /\
-  (forall a p b, Forall (fun c => is_space c = true) a -> Forall (fun c => is_space c = true) b ->
-     no_space p -> trim_space (a ++ p ++ b) = p).
-Proof. exact go_forms_l. Qed.
+(* ---- Go literal forms, in full.  Text/IntGrammar.v is the grammar of Go base-0
+   integer literals as a data type:
+       literal  = [ "+" | "-" ] form
+       form     = nonzero-digit { ["_"] digit }                  (decimal)
+                | "0" { ["_"] octal-digit }                       (legacy octal, "0" itself)
+                | "0" (b|B|o|O|x|X) ["_"] digit { ["_"] digit }   (binary, octal, hex; digits below the base)
+   with render_lit (its text), lit_val (its positional value; separators do not
+   count), strip_lit (the same literal without separators), wf_lit (digits are
+   below the base etc.).  For every width: a literal of the grammar whose value is
+   in range parses to that value - as written, without its separators, and as a
+   slice element with blanks around it; out of range it is an error; and
+   conversely every text the parser accepts is a literal of the grammar with
+   that value (so a misplaced or doubled "_", a missing digit after a prefix, a
+   digit not below the base ... are all rejected). ---- *)
+Theorem int_accepts_go_forms : forall w g, wf_lit g = true ->
+  (in_srange w (lit_val g) = true ->
+     parse_number_int w (render_lit g) = Ok (lit_val g) /\
+     parse_number_int w (render_lit (strip_lit g)) = Ok (lit_val g) /\
+     forall a b, Forall (fun c => is_space c = true) a -> Forall (fun c => is_space c = true) b ->
+       signed_elem w (a ++ render_lit g ++ b) = Ok (lit_val g)) /\
+  (in_srange w (lit_val g) = false ->
+     (exists c, parse_number_int w (render_lit g) = Err c) /\
+     forall a b, Forall (fun c => is_space c = true) a -> Forall (fun c => is_space c = true) b ->
+       exists c, signed_elem w (a ++ render_lit g ++ b) = Err c).
+Proof. exact go_forms_signed. Qed.
+
+Theorem uint_accepts_go_forms : forall w f, wf_form f = true ->
+  (in_urange w (form_val f) = true ->
+     parse_number_uint w (render_form f) = Ok (form_val f) /\
+     forall a b, Forall (fun c => is_space c = true) a -> Forall (fun c => is_space c = true) b ->
+       unsigned_elem w (a ++ render_form f ++ b) = Ok (form_val f)) /\
+  (in_urange w (form_val f) = false -> exists c, parse_number_uint w (render_form f) = Err c).
+Proof. exact go_forms_unsigned. Qed.
+
+Theorem int_accepts_only_go_forms : forall w s z, parse_number_int w s = Ok z ->
+  exists g, wf_lit g = true /\ render_lit g = s /\ lit_val g = z.
+Proof. exact go_forms_complete_signed. Qed.
+
+Theorem uint_accepts_only_go_forms : forall w s n, parse_number_uint w s = Ok n ->
+  exists f, wf_form f = true /\ render_form f = s /\ form_val f = n.
+Proof. exact go_forms_complete_unsigned. Qed.
+
+Theorem digit_separators_do_not_count : forall g, wf_lit g = true ->
+  wf_lit (strip_lit g) = true /\ lit_val (strip_lit g) = lit_val g.
+Proof. exact strip_lit_ok. Qed.
 
 (* ---- strings ---- *)
 Theorem quote_unquote : forall isp, (forall r, r < 128 -> isp r = ascii_print r) ->
@@ -149,6 +177,10 @@ Print Assumptions uint_slice_never_wraps.
 Print Assumptions int_slice_out_of_range_is_error.
 Print Assumptions uint_slice_out_of_range_is_error.
 Print Assumptions int_accepts_go_forms.
+Print Assumptions uint_accepts_go_forms.
+Print Assumptions int_accepts_only_go_forms.
+Print Assumptions uint_accepts_only_go_forms.
+Print Assumptions digit_separators_do_not_count.
 Print Assumptions quote_unquote.
 Print Assumptions slice_roundtrip.
 Print Assumptions set_roundtrip.
